@@ -63,6 +63,7 @@ type Term struct {
 	// quantifiers / lambda: Op "forall"/"lambda": Bound vars in BV, body in Args[0], optional pattern Args[1:]
 	Bound    []*Term
 	hasBound bool // contains a bound variable (cannot be hoisted to define-fun)
+	hasIP    bool // contains an interior-pointer application (value.go: ipTerm)
 }
 
 var (
@@ -101,6 +102,12 @@ func intern(t *Term) *Term {
 		if a.hasBound {
 			t.hasBound = true
 		}
+		if a.hasIP {
+			t.hasIP = true
+		}
+	}
+	if t.Op == "app" && strings.HasPrefix(t.Name, "ip:") {
+		t.hasIP = true
 	}
 	if t.Op == "bound" {
 		t.hasBound = true
